@@ -451,6 +451,16 @@ func (c *Channel) onHandshake() {
 	func() {
 		c.mu.Lock()
 		defer c.mu.Unlock()
+		if s := c.sessions[2].Session; s != nil && !s.IsReady() && s.ExpiresAt().Before(time.Now()) {
+			// the handshake has outlived its session, retransmitting it is pointless.
+			if s.IsInit() {
+				// we wanted this session: start over with a fresh one.
+				id, s2 := c.newInit(time.Now())
+				c.setNext(sessionEntry{ID: id, Session: s2})
+			} else {
+				c.setNext(sessionEntry{})
+			}
+		}
 		for _, se := range c.sessions {
 			if se.Session != nil && !se.Session.IsReady() {
 				out := se.Session.Handshake(nil)
